@@ -7,10 +7,10 @@
    backend, the "handled" result (FALSE = the session handler forwards the client's
    response packet to the backend server).
 
-   Three handler kinds (mode):
-     "legacy"     clients before 1.17     one queue, one prompt at a time
-     "legacy117"  clients 1.17 - 1.20.2   same, but forced packs are never auto-declined
-     "modern"     clients 1.20.3+         one queue per pack id
+   Three handler kinds (mode), decided by the client's protocol number (ModeOf):
+     "legacy"     clients before 1.17 (< 755)        one queue, one prompt at a time
+     "legacy117"  clients 1.17 - 1.20.2 (755..764)   same, but forced packs are never auto-declined
+     "modern"     clients 1.20.3+ (>= 765)           one queue per pack id
 
    The module has two layers.
    * LegacyStep / ModernStep are THE specification: relations between the state before
@@ -22,7 +22,7 @@
      checks the property invariants on it and exports its histories for replay. *)
 EXTENDS Integers, Sequences, FiniteSets, TLC, Json
 
-CONSTANTS Modes,       \* handler kinds of this run: subset of {"legacy", "legacy117", "modern"}
+CONSTANTS Versions,    \* client protocol numbers of this run (both sides of 755 and 765)
           PackNames,   \* subset of {"A","B","C","D"}: the packs of this run
           Statuses,    \* client response statuses used in this run
           MaxLen,      \* history length
@@ -30,6 +30,8 @@ CONSTANTS Modes,       \* handler kinds of this run: subset of {"legacy", "legac
 
 AllStatuses == {"accepted", "declined", "success", "failed", "downloaded",
                 "invalidUrl", "failedReload", "discarded"}
+ModeOf(v) == IF v < 755 THEN "legacy" ELSE IF v < 765 THEN "legacy117" ELSE "modern"
+
 Intermediate(s) == s \in {"accepted", "downloaded"}   \* the pack stays outstanding
 
 Ids == {1, 2}
@@ -122,7 +124,8 @@ ModernStep(qm, op, out, qm2) ==
 -----------------------------------------------------------------------------
 (* The reference machine (Velocity's LegacyResourcePackHandler / Legacy117 / Modern). *)
 
-VARIABLES mode,      \* the handler kind
+VARIABLES ver,       \* the client's protocol number
+          mode,      \* the handler kind = ModeOf(ver)
           q, qm,     \* outstanding packs (legacy) / per id (modern)
           prev,      \* legacy: the client's previous accept/decline: "none" | "acc" | "dec"
           decl,      \* the client has declined a pack (the specification's state)
@@ -130,7 +133,7 @@ VARIABLES mode,      \* the handler kind
           nAuto,     \* packs auto-declined so far
           last,      \* [op, out] of the last call
           h          \* the calls so far
-vars == <<mode, q, qm, prev, decl, open, nAuto, last, h>>
+vars == <<ver, mode, q, qm, prev, decl, open, nAuto, last, h>>
 
 QueueOps == {[op |-> "queue", pack |-> n, sid |-> 0, st |-> ""] : n \in PackNames}
 RespOps == IF mode = "modern"
@@ -207,11 +210,11 @@ ModernApply(op) ==
       [] op.op = "remove" -> qm' = [qm EXCEPT ![op.sid] = <<>>] /\ last' = [op |-> op, out |-> NoOut]
       [] op.op = "clear" -> qm' = [i \in Ids |-> <<>>] /\ last' = [op |-> op, out |-> NoOut]
 
-Init == /\ mode \in Modes /\ q = <<>> /\ qm = [i \in Ids |-> <<>>] /\ prev = InitPrev /\ decl = FALSE
+Init == /\ ver \in Versions /\ mode = ModeOf(ver) /\ q = <<>> /\ qm = [i \in Ids |-> <<>>] /\ prev = InitPrev /\ decl = FALSE
         /\ open = 0 /\ nAuto = 0 /\ h = <<>>
         /\ last = [op |-> [op |-> "clear", pack |-> "", sid |-> 0, st |-> ""], out |-> NoOut]
 
-Next == /\ Len(h) < MaxLen /\ mode' = mode
+Next == /\ Len(h) < MaxLen /\ mode' = mode /\ ver' = ver
         /\ \E op \in Ops :
               /\ IF mode = "modern"
                    THEN ModernApply(op) /\ UNCHANGED <<q, prev, nAuto, open>>
@@ -234,5 +237,5 @@ OnePrompt == mode # "modern" => (open <= 1 /\ (q # <<>> <=> open = 1))
 \* packs are auto-declined only after the client has declined one
 AutoOnlyAfterDecline == nAuto > 0 => decl
 
-Emit == Len(h) = MaxLen => PrintT(<<"HIST", ToJson([mode |-> mode, h |-> h])>>)
+Emit == Len(h) = MaxLen => PrintT(<<"HIST", ToJson([ver |-> ver, mode |-> mode, h |-> h])>>)
 =============================================================================
